@@ -344,8 +344,10 @@ def check(ctx):
                 if call_name(d) in ("np.minimum", "min") and len(d.args) == 2:
                     from ..terms import linear
 
+                    from .common import deref_expr as _dx3
+
                     for a in d.args:
-                        lt, lc2 = linear(a)
+                        lt, lc2 = linear(_dx3(prog, mesh, a))  # the option may sit in a local
                         if lt == {"OPT[max_fun_evals]": Fraction(1)} and lc2 == -1:
                             okd = True
         ctx.check(okd, mesh, c, "design size = min(fun_eval_start, max_fun_evals - 1)", "the initial design is not capped by max_fun_evals - 1", construct="design size cap")
